@@ -228,7 +228,8 @@ pub fn gen_val(r: &mut Rng, t: &Ty, budget: usize) -> Val {
             Val::Map((0..n).map(|_| (gen_val(r, k, sub), gen_val(r, v, sub))).collect())
         }
         Ty::Enum(vs) => {
-            let i = r.below(vs.len() as u64) as usize;
+            // wide enums: half of the time an index at the one-byte / two-byte varint boundary
+            let i = if vs.len() > 128 && r.chance(1, 2) { (126 + r.below(4) as usize).min(vs.len() - 1) } else { r.below(vs.len() as u64) as usize };
             Val::Variant(i as u32, Box::new(gen_val(r, &vs[i], budget)))
         }
     }
@@ -321,6 +322,37 @@ pub fn block_write_boundary_vals(r: &mut Rng, thorough: bool) -> Vec<(Ty, Val)> 
         out.push((
             Ty::Tuple(vec![Ty::Bytes, Ty::Str, Ty::Int(IK::U8)]),
             Val::Tuple(vec![Val::Bytes(nz[..l - cut].to_vec()), Val::Str(vec![b'y'; cut]), Val::unsigned(IK::U8, 7)]),
+        ));
+    }
+    out
+}
+
+
+/// lengths and variant indices at the varint width boundaries (1 -> 2 bytes at 128, 2 -> 3 bytes at
+/// 16384): strings, byte strings, sequences and maps of exactly that many elements, alone and
+/// followed by another field; enums wide enough to have such an index
+pub fn boundary_cases() -> Vec<(Ty, Val)> {
+    let mut out = Vec::new();
+    for l in [126usize, 127, 128, 129, 16383, 16384, 16385] {
+        out.push((Ty::Str, Val::Str(vec![b'a'; l])));
+        out.push((Ty::Bytes, Val::Bytes(vec![0x5a; l])));
+        out.push((Ty::Seq(Box::new(Ty::Unit)), Val::Seq(vec![Val::Unit; l])));
+        out.push((Ty::Seq(Box::new(Ty::Int(IK::U8))), Val::Seq((0..l).map(|i| Val::unsigned(IK::U8, (i % 251) as u128)).collect())));
+        out.push((Ty::Map(Box::new(Ty::Unit), Box::new(Ty::Bool)), Val::Map((0..l).map(|i| (Val::Unit, Val::Bool(i % 3 == 0))).collect())));
+        out.push((
+            Ty::Tuple(vec![Ty::Str, Ty::Int(IK::U8), Ty::Bytes]),
+            Val::Tuple(vec![Val::Str(vec![b'z'; l]), Val::unsigned(IK::U8, 7), Val::Bytes(vec![1; l])]),
+        ));
+    }
+    for idx in [126usize, 127, 128, 129, 16383, 16384, 16385] {
+        let mut shapes = vec![Ty::UnitStruct; idx + 2];
+        shapes[idx] = Ty::Newtype(Box::new(Ty::Int(IK::U8)));
+        let t = Ty::Enum(shapes);
+        out.push((t.clone(), Val::Variant(idx as u32, Box::new(Val::Newtype(Box::new(Val::unsigned(IK::U8, 5)))))));
+        out.push((t.clone(), Val::Variant(idx as u32 + 1, Box::new(Val::UnitStruct))));
+        out.push((
+            Ty::Tuple(vec![t.clone(), Ty::Int(IK::U8)]),
+            Val::Tuple(vec![Val::Variant(idx as u32 - 1, Box::new(Val::UnitStruct)), Val::unsigned(IK::U8, 9)]),
         ));
     }
     out
